@@ -93,7 +93,7 @@ def switched_assertions(vals, got):
         if any(vals[i] != 0 or i not in tp for i in others):
             bad.append('others-are-zero-turning-points')
     for a, b in zip(got, got[1:]):
-        if vals[a] * vals[b] > 0:
+        if (vals[a] > 0 and vals[b] > 0) or (vals[a] < 0 and vals[b] < 0):
             bad.append('consecutive-share-sign')
             break
     if got:
